@@ -455,6 +455,34 @@ fn setup_vm() -> Box<vtex::Vm> {
     vm
 }
 
+/// Second program run on the same VM: typesets x, then the input ends inside `\count`.
+const SECOND: &str = "x\\count";
+/// Title and context-chain length of the error `SECOND` ends with on a fresh VM.
+fn second_baseline() -> &'static (String, usize) {
+    static B: std::sync::OnceLock<(String, usize)> = std::sync::OnceLock::new();
+    B.get_or_init(|| {
+        let mut vm = setup_vm();
+        let _ = vm.push_source("u.tex", SECOND);
+        match vm.run::<vtex::H>() {
+            Err(e) => (e.error.title(), e.stack_trace.len()),
+            Ok(()) => ("<no error>".into(), 0),
+        }
+    })
+}
+/// The rendered error shows `<source name>:<line>`.
+fn text_shows_location(text: &str) -> bool {
+    for marker in [".tex:", "terminal>:"] {
+        let mut rest = text;
+        while let Some(i) = rest.find(marker) {
+            rest = &rest[i + marker.len()..];
+            if rest.chars().next().map(|c| c.is_ascii_digit()).unwrap_or(false) {
+                return true;
+            }
+        }
+    }
+    false
+}
+
 struct Verdict {
     class: String,
     /// (expected, observed, note)
@@ -481,24 +509,28 @@ fn run_case(mode: usize, body: &str) -> Verdict {
                 let title = e.error.title();
                 // the error must render, to non-empty text, without panicking (a panic here unwinds to `catch`)
                 let text = format!("{e}");
-                let located = match e.error.kind() {
-                    vtex::texlang::error::Kind::Token(t) => e.token_traces.get(&t).map(|tr| tr.line_number >= 1).unwrap_or(false),
-                    vtex::texlang::error::Kind::EndOfInput => e.end_of_input_trace.as_ref().map(|tr| tr.line_number >= 1).unwrap_or(false),
-                    vtex::texlang::error::Kind::FailedPrecondition => e.error.source_code_trace_override().is_some() || e.stack_trace.last().map(|s| s.trace.line_number >= 1).unwrap_or(false),
-                };
+                // "carries a source location": any of the error's carriers names a line (which carrier the
+                // crate uses for which error kind is its own choice), or the rendered text itself shows
+                // <source>:<line>
+                let located = e.token_traces.values().any(|tr| tr.line_number >= 1)
+                    || e.end_of_input_trace.as_ref().map(|tr| tr.line_number >= 1).unwrap_or(false)
+                    || e.error.source_code_trace_override().map(|tr| tr.line_number >= 1).unwrap_or(false)
+                    || e.stack_trace.iter().any(|s| s.trace.line_number >= 1)
+                    || text_shows_location(&text);
                 Err((title, if text.trim().is_empty() { "EMPTY-RENDERING".into() } else if !located { "NOT-LOCATED".into() } else { String::new() }))
             }
         };
-        // afterwards: the execution stack is balanced, and the VM is reusable (unread input of the first
-        // program is dropped, a second program runs)
+        // afterwards the VM is reusable: unread input of the first program is dropped and a second program
+        // runs; it ends with an end-of-input error inside \\count, whose context chain (stack trace) must be
+        // the one this program has on a fresh VM - frames left over from the first program would make a
+        // later error point at the wrong place
         let depth = vm.generate_stack_trace().len();
         vm.clear_sources();
         vm.state.env.out.borrow_mut().clear();
         vm.state.env.steps.set(0);
         vm.state.env.errs.set(0);
-        let _ = vm.push_source("u.tex", "x");
-        let again = vm.run::<vtex::H>().map_err(|e| (e.error.title(), depth));
-        let again = if depth != 0 { Err(("<unbalanced>".to_string(), depth)) } else { again };
+        let _ = vm.push_source("u.tex", SECOND);
+        let again = vm.run::<vtex::H>().map_err(|e| (e.error.title(), e.stack_trace.len(), depth));
         let out2 = vm.state.env.out.borrow().concat();
         (outcome, again, out2)
     });
@@ -533,13 +565,19 @@ fn run_case(mode: usize, body: &str) -> Verdict {
             if v.fail.is_none() {
                 // a fatal error in the first run may leave groups/conditionals open; the second run
                 // must still execute (x is typeset or a located error is returned, no panic, no hang)
+                let (t0, d0) = second_baseline();
                 match again {
-                    Ok(()) if out2.contains('x') => {}
-                    Ok(()) => v.class.push_str(" / second run: x not typeset"),
-                    Err((t, d)) if t == "<unbalanced>" => {
-                        v.fail = Some(("an empty execution stack after the run".into(), format!("{d} element(s) left on the execution stack"), "the execution stack was left unbalanced".into()));
+                    Ok(()) => v.class.push_str(if out2.contains('x') { " / second run: ok" } else { " / second run: x not typeset" }),
+                    Err((t, d, left)) if t == *t0 => {
+                        if d != *d0 {
+                            v.fail = Some((
+                                format!("second program: {t0:?} with the context chain it has on a fresh VM ({d0} element(s))"),
+                                format!("context chain of {d} element(s); {left} element(s) were left on the execution stack by the first run"),
+                                "an error of the second program carries context left over from the first one".into(),
+                            ));
+                        }
                     }
-                    Err(_) => v.class.push_str(" / second run: error"),
+                    Err(_) => v.class.push_str(" / second run: other error"),
                 }
             }
         }
@@ -922,7 +960,7 @@ fn main() {
     ctx.assume("budgets: 3000 expansions and 100 recoverable errors per run; a run that exhausts the step budget is counted as a cut-off and not judged");
     ctx.assume("environment owned by the harness: in-memory files f.tex, g.tex, a.tex (self-including), a scripted terminal with two lines, output and logs to a sink, fixed clock; undefined control sequences are recorded by the handlers instead of ending the run");
     ctx.assume("worker processes run with a 3 GiB address-space limit: an allocation beyond it is an allocation failure (abort), which is reported against the case");
-    ctx.assume("reusability after a run: VM::generate_stack_trace() is empty (execution stack balanced), and after clear_sources() a second program `x` runs without panic or hang (state left by the first program - category codes, an open conditional - may legitimately change what it does)");
+    ctx.assume("reusability after a run: after clear_sources() a second program `x\\count` runs without panic or hang; when it ends with its own end-of-input error, that error has the context chain it has on a fresh VM (state left by the first program - category codes, an open conditional - may legitimately change what the second program does: then nothing is compared)");
     let fams = Families::new(ctx.quick());
 
     if let Some((_f, case)) = ctx.replay_case() {
